@@ -488,6 +488,21 @@ theorem afterHdr_spec (mode : Mode) (X : Bytes) (fuel : Nat)
     exact FrPost_transfer mode X False _ _ _ _ _ _ this (by rw [hS', hdn, List.append_nil])
       (by rw [hsplit, hdn, List.append_nil]; exact Nat.le_refl _) (Nat.le_refl _) (fun h => h.elim)
 
+theorem FrPost_imp (mode : Mode) (X : Bytes) (c c1 : Prop) (p av : Bytes) (res : Ret × St × Bytes)
+    (h : FrPost mode X c1 p av res) (hc : c → c1) : FrPost mode X c p av res := by
+  obtain ⟨ret, st', av'⟩ := res
+  cases ret with
+  | err => exact h
+  | oob => exact h
+  | closed => exact h
+  | zero =>
+    simp only [FrPost] at h ⊢
+    exact ⟨h.1, h.2.1, fun x => h.2.2 (hc x)⟩
+  | pkt pl =>
+    simp only [FrPost] at h ⊢
+    obtain ⟨h1, h2, h3, h4, hp1, hp2⟩ := h
+    exact ⟨h1, h2, h3, h4, hp1, fun x => hp2 (hc x)⟩
+
 /-- the reader between frames / inside a header: one `coap_ws_read` against S -/
 theorem readFrame_spec (mode : Mode) (X : Bytes) : ∀ (fuel : Nat) (st : St) (av p : Bytes),
     FrPre st p → p.length ≤ fsCap → p.length + av.length < fuel →
